@@ -15,7 +15,7 @@ import (
 // on their context when the scheduler stops.
 
 type lifeOp struct {
-	Op  string `json:"op"`  // start | stop | cancel | stopstart | schedule
+	Op  string `json:"op"`  // start | stop | cancel | stopstart | schedule | wait
 	Gap string `json:"gap"` // 0 | yield | 1ms | 20ms   (pause after the op)
 }
 
@@ -24,7 +24,8 @@ type lifeResult struct {
 	ID              int      `json:"id"`
 	Seed            int      `json:"seed"`
 	Mode            string   `json:"mode"`
-	Jobs            string   `json:"jobs"` // idle | running | blocked
+	Jobs            string   `json:"jobs"` // idle | running | blocked | reentrant (blocked, then calls the scheduler)
+	StopHung        bool     `json:"stop_hung"`
 	Ops             []lifeOp `json:"ops"`
 	Expected        bool     `json:"expected_started"` // last of {Start, Stop, cancel of the running run} is Start
 	Observed        bool     `json:"observed_started"`
@@ -38,6 +39,8 @@ type lifeResult struct {
 	BlockedSawDone  int64    `json:"blocked_saw_done"`
 	LiveCtxAtStart  int64    `json:"execs_started_with_done_ctx_while_running"`
 	StartsEffective int      `json:"effective_starts"`
+	EarlyWaits      int      `json:"waits_returned_while_started"` // Wait came back although the scheduler was started
+	LateWaits       int      `json:"waits_hanging_while_stopped"`
 }
 
 func gap(g string) {
@@ -96,8 +99,10 @@ func genLifeOps(r *rng) []lifeOp {
 			op = "stop"
 		case 4, 5:
 			op = "cancel"
-		case 6, 7, 8:
+		case 6, 7:
 			op = "stopstart"
+		case 8:
+			op = "wait"
 		default:
 			op = "schedule"
 		}
@@ -109,7 +114,7 @@ func genLifeOps(r *rng) []lifeOp {
 func runLife(seed, id int, fixed []lifeOp) lifeResult {
 	r := &rng{s: uint64(seed)*7919 + uint64(id)*104729 + 1}
 	mode := []string{"unbounded", "blocking", "pool"}[id%3]
-	jobs := []string{"idle", "running", "blocked"}[(id/3)%3]
+	jobs := []string{"idle", "running", "blocked", "reentrant"}[(id/3)%4]
 	ops := fixed
 	if ops == nil {
 		ops = genLifeOps(r)
@@ -133,6 +138,17 @@ func runLife(seed, id int, fixed []lifeOp) lifeResult {
 	switch jobs {
 	case "running":
 		second = detail("busy", func(ctx context.Context) error { stamp(); time.Sleep(15 * time.Millisecond); return nil })
+	case "reentrant":
+		// a job that, once its context is cancelled, asks the scheduler about itself before returning
+		second = detail("blocked", func(ctx context.Context) error {
+			stamp()
+			blockedStarted.Add(1)
+			<-ctx.Done()
+			_ = s.IsStarted()
+			_, _ = s.GetJobKeys()
+			blockedSawDone.Add(1)
+			return nil
+		})
 	case "blocked":
 		second = detail("blocked", func(ctx context.Context) error {
 			stamp()
@@ -145,6 +161,17 @@ func runLife(seed, id int, fixed []lifeOp) lifeResult {
 	s.ScheduleJob(tick, quartz.NewSimpleTrigger(4*time.Millisecond))
 	if second != nil {
 		s.ScheduleJob(second, quartz.NewSimpleTrigger(9*time.Millisecond))
+	}
+	stopWD := func() bool {
+		done := make(chan struct{})
+		go func() { s.Stop(); close(done) }()
+		select {
+		case <-done:
+			return true
+		case <-time.After(6 * time.Second):
+			res.StopHung = true
+			return false
+		}
 	}
 	expected := false
 	var cancelCur context.CancelFunc
@@ -168,7 +195,9 @@ func runLife(seed, id int, fixed []lifeOp) lifeResult {
 		case "start":
 			doStart()
 		case "stop":
-			s.Stop()
+			if !stopWD() {
+				return res
+			}
 			expected = false
 		case "cancel":
 			if expected && cancelCur != nil {
@@ -178,9 +207,28 @@ func runLife(seed, id int, fixed []lifeOp) lifeResult {
 				pollUntil(3*time.Second, func() bool { return !s.IsStarted() })
 			}
 		case "stopstart":
-			s.Stop()
+			if !stopWD() {
+				return res
+			}
 			expected = false
 			doStart()
+		case "wait":
+			// Wait returns only when the scheduler has shut down: while started it must run into its own timeout
+			if expected {
+				wctx, wc := context.WithTimeout(context.Background(), 120*time.Millisecond)
+				s.Wait(wctx)
+				if wctx.Err() == nil && s.IsStarted() {
+					res.EarlyWaits++
+				}
+				wc()
+			} else {
+				wctx, wc := context.WithTimeout(context.Background(), 6*time.Second)
+				s.Wait(wctx)
+				if wctx.Err() != nil {
+					res.LateWaits++
+				}
+				wc()
+			}
 		case "schedule":
 			nsched++
 			name := "extra" + string(rune('a'+nsched%26))
@@ -201,7 +249,9 @@ func runLife(seed, id int, fixed []lifeOp) lifeResult {
 		res.FiredWhenOn = pollUntil(4*time.Second, func() bool { return execStarts.Load() > startsAtLastStart })
 	}
 	// shut down and wait
-	s.Stop()
+	if !stopWD() {
+		return res
+	}
 	wctx, wc := context.WithTimeout(context.Background(), 6*time.Second)
 	done := make(chan struct{})
 	go func() { s.Wait(wctx); close(done) }()
@@ -244,6 +294,8 @@ var lifeFixed = [][]lifeOp{
 	{{"start", "20ms"}, {"cancel", "yield"}, {"start", "20ms"}, {"stopstart", "0"}, {"cancel", "0"}, {"start", "1ms"}},
 	{{"start", "0"}, {"schedule", "1ms"}, {"stopstart", "0"}, {"schedule", "20ms"}},
 	{{"start", "1ms"}, {"start", "0"}, {"cancel", "0"}},
+	{{"start", "20ms"}, {"stop", "0"}, {"wait", "0"}, {"start", "20ms"}, {"wait", "0"}},
+	{{"start", "1ms"}, {"wait", "0"}, {"cancel", "0"}, {"wait", "0"}, {"start", "1ms"}, {"wait", "0"}, {"stopstart", "0"}, {"wait", "1ms"}},
 	{{"start", "1ms"}, {"start", "1ms"}, {"cancel", "1ms"}, {"start", "20ms"}},
 	{{"start", "20ms"}, {"stop", "1ms"}, {"start", "20ms"}, {"stop", "0"}, {"start", "20ms"}, {"stop", "0"}},
 }
